@@ -173,6 +173,19 @@ def ser_result(kind: str, value: Any) -> Any:
         return sorted(ser_vars_sorted(x) for x in value)
     if kind == "list":
         return ser_vars_ordered(value)
+    if kind == "dsep":
+        return [
+            {
+                "sep": bool(j.separated),
+                "truth": bool(j),
+                "left": ser_var(j.left),
+                "right": ser_var(j.right),
+                "cond": [ser_var(c) for c in j.conditions],
+                "cond_type": type(j.conditions).__name__,
+                "canonical": bool(j.is_canonical),
+            }
+            for j in value
+        ]
     if kind == "bool":
         return bool(value)
     if kind == "expr":
